@@ -626,4 +626,366 @@ theorem F27a_resume_trusts_unverified_bytes :
      get (run (wPull.exec wEnvN st2).effs st2) (.blob "d2") = some (.raw [2])) := by
   refine ⟨⟨11, Or.inl rfl⟩, by decide⟩
 
+
+
+/-! ## Round 7 — the `.ok` half of clause 3 for upload / copy / delete, and the blob an upload is about -/
+
+theorem upload_ok (env : Env) (k : Nat) (d : Digest) (body : Bytes) (st : Store) :
+    (upload env k d body st).ok = true := by
+  unfold upload; split
+  · rfl
+  · unfold newLayer; dsimp only; split <;> rfl
+
+/-- an honest client's upload ends with the blob in place (already there, or moved into place) -/
+theorem upload_present {hash : Bytes → Digest} {env : Env} (henv : EnvOK hash env) (k : Nat) (d : Digest)
+    (body : Bytes) (hd : hash body = d) (st : Store) :
+    present (run (upload env k d body st).effs st) (.blob d) = true := by
+  unfold upload; split
+  · rename_i h; simpa [run] using h
+  · have := (newLayer_spec env henv.hash_eq k (env.chunk body) st).2.2.1
+    rw [henv.chunk_flatten, hd] at this
+    exact this
+
+/-- **Clause 3, "succeeds (or reports that it already took effect)", for upload / copy / delete (fixed
+variant).**  If the uninterrupted operation succeeds, then after any crash of it and the start-up
+sequence the repeated operation succeeds — or it is a delete whose manifest is already gone (the
+handler answers "not found": the deletion took effect). -/
+theorem rerun_ok_partial {env : Env} (hat : env.atomicMan = true) (st : Store) (op : Op)
+    (hg : rerunGuard op = true) (hok : (op.exec env st).ok = true)
+    (p : List Effect) (hp : CrashPrefix (op.exec env st).effs p) :
+    (op.exec env (restartWith env (run p st))).ok = true ∨
+    ∃ n, op = .delete n ∧ get (restartWith env (run p st)) (.man n) = none := by
+  have G := fun n => atomic_manifest_old_or_new hat op st p hp n
+  generalize restartWith env (run p st) = st1 at G ⊢
+  cases op with
+  | upload k d body => exact Or.inl (upload_ok env k d body st1)
+  | copy src dst =>
+    left
+    simp only [Op.exec] at G hok ⊢
+    unfold copy at hok ⊢
+    by_cases hsd : src = dst
+    · simp [hsd]
+    · simp only [hsd, ↓reduceIte] at hok ⊢
+      have Gs := G src
+      rw [copy_final env hat] at Gs
+      have hsrc : get st1 (.man src) = get st (.man src) := by
+        have : ¬ (src ≠ dst ∧ src = dst ∧ (get st (.man src)).isSome = true) := fun h => hsd h.2.1
+        simpa [this] using Gs
+      rw [hsrc]
+      cases hs : get st (.man src) with
+      | none => simp [hs] at hok
+      | some c => simp only []; split <;> rfl
+  | delete n =>
+    simp only [Op.exec] at G hok ⊢
+    have Gn := G n
+    rw [delete_final] at Gn
+    unfold delete at hok ⊢
+    cases hr : readable st n with
+    | none => simp [hr] at hok
+    | some m =>
+      simp only [hr, Option.isSome_some, and_self, ↓reduceIte] at Gn
+      rcases Gn with h | h
+      · left
+        have : readable st1 n = some m := by rw [readable_eq_some, h]; exact readable_eq_some.mp hr
+        simp only [this]
+        rw [andThen_ok]
+        have hrl : ∀ ds st', (removeLayers ds st').ok = true := by
+          intro ds
+          induction ds with
+          | nil => intro st'; rfl
+          | cons d rest ih =>
+            intro st'
+            simp only [removeLayers]
+            rw [andThen_ok]
+            have : (layerRemove d st').ok = true := by unfold layerRemove; split <;> rfl
+            rw [this, ih]; rfl
+        rw [hrl]; rfl
+      · right; exact ⟨n, rfl, h⟩
+  | create n ups file datas cfg => simp [rerunGuard] at hg
+  | pull reg n m => simp [rerunGuard] at hg
+
+/-- **Clause 3 for upload, about the blob.**  Honest client (`hash body = d`): kill the upload anywhere,
+run the start-up sequence (which may prune the unreferenced blob or the temp file), upload again: the
+repeated upload succeeds and blob `d` is present with bytes that hash to `d` — as after the
+uninterrupted upload. -/
+theorem rerun_converges_upload {hash : Bytes → Digest} {env : Env} (henv : EnvOK hash env) {st : Store}
+    (hinv : Inv hash st) (k : Nat) (d : Digest) (body : Bytes) (hd : hash body = d)
+    (p : List Effect) (hp : CrashPrefix ((Op.upload k d body).exec env st).effs p) :
+    let st1 := restartWith env (run p st)
+    ((Op.upload k d body).exec env st1).ok = true ∧
+    (∃ bs, get (run ((Op.upload k d body).exec env st1).effs st1) (.blob d) = some (.raw bs) ∧ hash bs = d) ∧
+    (∃ bs, get (run ((Op.upload k d body).exec env st).effs st) (.blob d) = some (.raw bs) ∧ hash bs = d) := by
+  intro st1
+  have hcs := crash_safe henv hinv (.upload k d body) trivial p hp
+  have key : ∀ s, Inv hash s → ∃ bs, get (run (upload env k d body s).effs s) (.blob d) = some (.raw bs) ∧ hash bs = d := by
+    intro s hs
+    have hp := upload_present henv k d body hd s
+    have hinv' := StoreCrash.seq_preserves_inv hs (upload_spec env henv.hash_eq k d body s).1
+    unfold present at hp
+    cases hg : get (run (upload env k d body s).effs s) (.blob d) with
+    | none => simp [hg] at hp
+    | some c =>
+      obtain ⟨bs, rfl, hh⟩ := hinv'.1 d c hg
+      exact ⟨bs, rfl, hh⟩
+  exact ⟨upload_ok env k d body st1, key st1 hcs.2.1, key st hinv⟩
+
+example : ∃ p, CrashPrefix ((Op.upload 0 "d2" [2]).exec wEnvA wStoreA).effs p ∧ p.length = 2 ∧
+    get (restartWith wEnvA (run p wStoreA)) (.temp 0) = none :=
+  ⟨_, ⟨2, Or.inl rfl⟩, by decide, by decide⟩
+
+
+
+/-! ## Round 7 — clause 4 for BLOBS (delete, prune configuration) -/
+
+/-- every blob file is named by some readable manifest: the state of blobs/ after a start-up that pruned
+(and before any upload that is not yet part of a model) -/
+def AllReferenced (st : Store) : Prop := ∀ d, (get st (.blob d)).isSome = true → referenced st d = true
+
+theorem layerRemove_ok (d : Digest) (st : Store) : (layerRemove d st).ok = true := by
+  unfold layerRemove; split <;> rfl
+
+theorem removeLayers_ok (ds : List Digest) (st : Store) : (removeLayers ds st).ok = true := by
+  induction ds generalizing st with
+  | nil => rfl
+  | cons d rest ih => simp only [removeLayers]; rw [andThen_ok, layerRemove_ok, ih]; rfl
+
+theorem noMan_layerRemove (d : Digest) (st : Store) : NoMan (layerRemove d st).effs := by
+  unfold layerRemove; split
+  · exact noMan_nil
+  · intro e he n' hw; simp at he; subst he; simp [writes] at hw
+
+/-- `RemoveLayers` only ever unlinks blobs that no readable manifest names -/
+theorem removeLayers_shape (ds : List Digest) (s : Store) :
+    ∀ e ∈ (removeLayers ds s).effs, ∃ x, e = .rm (.blob x) ∧ x ∈ ds ∧ referenced s x = false := by
+  induction ds generalizing s with
+  | nil => intro e he; simp [removeLayers] at he
+  | cons d rest ih =>
+    intro e he
+    simp only [removeLayers] at he
+    rw [andThen_effs, layerRemove_ok] at he
+    simp only [↓reduceIte, List.mem_append] at he
+    rcases he with he | he
+    · unfold layerRemove at he
+      split at he
+      · simp at he
+      · rename_i hc
+        simp at he; subst he
+        refine ⟨d, rfl, by simp, ?_⟩
+        cases h : referenced s d <;> simp_all
+    · obtain ⟨x, rfl, hx, hr⟩ := ih _ e he
+      refine ⟨x, rfl, List.mem_cons_of_mem _ hx, ?_⟩
+      rw [← hr]
+      exact (referenced_congr (fun n => noMan_get (noMan_layerRemove d s) n) x).symm
+
+/-- exact effect of `RemoveLayers` on blobs/: of the listed digests, those no readable manifest names are gone -/
+theorem get_run_removeLayers (ds : List Digest) (s : Store) (d : Digest) :
+    get (run (removeLayers ds s).effs s) (.blob d) =
+      if d ∈ ds ∧ referenced s d = false then none else get s (.blob d) := by
+  induction ds generalizing s with
+  | nil => simp [removeLayers, run]
+  | cons x rest ih =>
+    simp only [removeLayers]
+    rw [run_andThen, layerRemove_ok]
+    simp only [↓reduceIte]
+    rw [ih]
+    have href : referenced (run (layerRemove x s).effs s) d = referenced s d :=
+      referenced_congr (fun n => noMan_get (noMan_layerRemove x s) n) d
+    rw [href]
+    have hget : get (run (layerRemove x s).effs s) (.blob d) =
+        if d = x ∧ referenced s x = false then none else get s (.blob d) := by
+      unfold layerRemove
+      by_cases hc : (referenced s x || !present s (.blob x)) = true
+      · simp only [hc, ↓reduceIte, run]
+        by_cases hdx : d = x
+        · subst hdx
+          cases hr : referenced s d with
+          | true => simp
+          | false =>
+            simp only [hr, Bool.false_or, Bool.not_eq_true'] at hc
+            simp [present_false_get (by simpa using hc)]
+        · simp [hdx]
+      · simp only [hc, Bool.false_eq_true, ↓reduceIte, run, apply, get_del]
+        have hr : referenced s x = false := by
+          cases h : referenced s x <;> simp_all
+        by_cases hdx : d = x
+        · subst hdx; simp [hr]
+        · have : Path.blob d ≠ Path.blob x := fun h => hdx (by injection h)
+          simp [hdx, this]
+    rw [hget]
+    by_cases hdx : d = x
+    · subst hdx
+      cases hr : referenced s d <;> simp
+    · simp [hdx]
+
+/-- unlinking blobs that no readable manifest names leaves every manifest and every named blob alone -/
+theorem run_unreferenced_rms (P : Digest → Prop) (q : List Effect) (s : Store)
+    (hq : ∀ e ∈ q, ∃ x, e = .rm (.blob x) ∧ P x) :
+    (∀ n, get (run q s) (.man n) = get s (.man n)) ∧
+    (∀ d, ¬ P d → get (run q s) (.blob d) = get s (.blob d)) := by
+  induction q generalizing s with
+  | nil => exact ⟨fun _ => rfl, fun _ _ => rfl⟩
+  | cons e q ih =>
+    obtain ⟨x, rfl, hx⟩ := hq e (by simp)
+    have := ih (apply (.rm (.blob x)) s) (fun e he => hq e (by simp [he]))
+    refine ⟨fun n => ?_, fun d hd => ?_⟩
+    · simp only [run]; rw [this.1, get_apply_of_not_written (by simp [writes])]
+    · simp only [run]; rw [this.2 d hd, get_apply_of_not_written (by simp [writes]; intro h; subst h; exact hd hx)]
+
+theorem delete_blob_final (n : Name) (s : Store) (m : Man) (hr : readable s n = some m) (d : Digest) :
+    get (run (delete n s).effs s) (.blob d) =
+      if d ∈ m.all.map Layer.digest ∧ referenced (apply (.rm (.man n)) s) d = false then none else get s (.blob d) := by
+  unfold delete
+  simp only [hr, run_andThen, ↓reduceIte]
+  rw [get_run_removeLayers]
+  simp only [run]
+  rw [get_apply_of_not_written (by simp [writes])]
+  rfl
+
+theorem get_rm_man (n n' : Name) (s : Store) :
+    get (apply (.rm (.man n)) s) (.man n') = if n' = n then none else get s (.man n') := by
+  by_cases h : n' = n
+  · subst h; simp [apply, get_del]
+  · have : Path.man n' ≠ Path.man n := fun e => h (by injection e)
+    simp [apply, get_del, h, this]
+
+theorem get_prune_blob (st : Store) (d : Digest) :
+    get (prune st) (.blob d) = if referenced st d = true then get st (.blob d) else none := by
+  rw [get_prune]; rfl
+
+theorem get_prune_of_allReferenced {st : Store} (h : AllReferenced st) (d : Digest) :
+    get (prune st) (.blob d) = get st (.blob d) := by
+  rw [get_prune]
+  cases hg : get st (.blob d) with
+  | none => split <;> rfl
+  | some c =>
+    have hk : keepAtPrune st (.blob d) = true := h d (by simp [hg])
+    rw [hk]; rfl
+
+/-- **Clause 4 for blobs, delete, default configuration.**  Store with the invariant in which every blob
+is named by a readable manifest (the state after any start-up that pruned).  Kill the deletion anywhere,
+run the start-up sequence, delete again (it may answer "not found"): blobs/ holds exactly the blobs the
+uninterrupted deletion leaves — the layers only the deleted model used are gone, everything else is
+untouched, byte for byte. -/
+theorem rerun_converges_delete_blobs {env : Env} (hat : env.atomicMan = true) (hnp : env.noPrune = false)
+    {st : Store} (hall : allReadable st = true) (href : AllReferenced st)
+    (n : Name) (p : List Effect) (hp : CrashPrefix ((Op.delete n).exec env st).effs p) (d : Digest) :
+    get (run ((Op.delete n).exec env (restartWith env (run p st))).effs (restartWith env (run p st))) (.blob d) =
+    get (run ((Op.delete n).exec env st).effs st) (.blob d) := by
+  have hallp := atomic_never_torn_run hat (.delete n) st hall p hp
+  have hst1 : restartWith env (run p st) = prune (run p st) := by
+    unfold restartWith restart; simp [hnp, hallp]
+  rw [hst1]
+  simp only [Op.exec] at hp ⊢
+  cases hr : readable st n with
+  | none =>
+    have he : (delete n st).effs = [] := by unfold delete; simp [hr]
+    rw [he] at hp ⊢
+    have hpnil : p = [] := by
+      obtain ⟨k, h | ⟨e, e', hk, _, _⟩⟩ := hp
+      · simpa using h
+      · simp at hk
+    subst hpnil
+    simp only [run]
+    have : (delete n (prune st)).effs = [] := by unfold delete; simp [readable_prune, hr]
+    rw [this]; simp only [run]
+    exact get_prune_of_allReferenced href d
+  | some m =>
+    rw [delete_blob_final n st m hr]
+    have heffs : (delete n st).effs = Effect.rm (.man n) :: (removeLayers (m.all.map Layer.digest) (apply (.rm (.man n)) st)).effs := by
+      unfold delete; simp [hr, andThen_effs, run]
+    generalize hs0 : apply (Effect.rm (.man n)) st = s0 at heffs ⊢
+    have hshape := removeLayers_shape (m.all.map Layer.digest) s0
+    generalize hRL : (removeLayers (m.all.map Layer.digest) s0).effs = RL at heffs hshape
+    rw [heffs] at hp
+    have hs0blob : ∀ x, get s0 (.blob x) = get st (.blob x) := fun x => by
+      rw [← hs0]; exact get_apply_of_not_written (by simp [writes])
+    have hs0man : ∀ n', get s0 (.man n') = if n' = n then none else get st (.man n') := fun n' => by
+      rw [← hs0]; exact get_rm_man n n' st
+    -- the crash prefix is a plain prefix: nothing in a deletion is a cuttable write
+    have hplain : ∃ k, p = (Effect.rm (.man n) :: RL).take k := by
+      obtain ⟨k, hk | ⟨e, e', hk, hc, _⟩⟩ := hp
+      · exact ⟨k, hk⟩
+      · exfalso
+        have hmem := List.mem_of_getElem? hk
+        rcases List.mem_cons.mp hmem with h | h
+        · subst h; cases hc
+        · obtain ⟨x, rfl, _⟩ := hshape e h; cases hc
+    obtain ⟨k, hk⟩ := hplain
+    subst hk
+    cases k with
+    | zero =>
+      simp only [List.take_zero, run]
+      rw [delete_blob_final n (prune st) m (by rw [readable_prune]; exact hr), get_prune_of_allReferenced href]
+      have : referenced (apply (.rm (.man n)) (prune st)) d = referenced s0 d := by
+        apply referenced_congr
+        intro n'
+        rw [hs0man, get_rm_man, get_prune]; simp [keepAtPrune]
+      rw [this]
+    | succ k =>
+      simp only [List.take_succ_cons, run, hs0]
+      have hq : ∀ e ∈ RL.take k, ∃ x, e = Effect.rm (.blob x) ∧ (x ∈ m.all.map Layer.digest ∧ referenced s0 x = false) :=
+        fun e he => hshape e (List.mem_of_mem_take he)
+      have hrun := run_unreferenced_rms _ (RL.take k) s0 hq
+      generalize run (RL.take k) s0 = sc at hrun
+      -- the name is gone: the repeated deletion answers "not found" and does nothing
+      have hgone : readable (prune sc) n = none := by
+        rw [readable_prune]; unfold readable; rw [hrun.1, hs0man]; simp
+      have : (delete n (prune sc)).effs = [] := by unfold delete; simp [hgone]
+      rw [this]; simp only [run]
+      rw [get_prune_blob]
+      have href' : referenced sc d = referenced s0 d := referenced_congr hrun.1 d
+      rw [href']
+      cases hrd : referenced s0 d with
+      | true =>
+        simp only [↓reduceIte, Bool.true_eq_false, and_false]
+        rw [hrun.2 d (by simp [hrd]), hs0blob]
+      | false =>
+        simp only [Bool.false_eq_true, ↓reduceIte, and_true]
+        split
+        · rfl
+        · rename_i hnm
+          -- not a layer of the deleted model and named by nobody else: it was not there in the first place
+          cases hg : get st (.blob d) with
+          | none => rfl
+          | some c =>
+            exfalso
+            obtain ⟨n', m', hr', l, hl, hld⟩ := referenced_iff.mp (href d (by simp [hg]))
+            by_cases hn : n' = n
+            · subst hn
+              rw [hr] at hr'; injection hr' with hr'; subst hr'
+              exact hnm (List.mem_map.mpr ⟨l, hl, hld⟩)
+            · have : referenced s0 d = true := by
+                apply referenced_iff.mpr
+                refine ⟨n', m', ?_, l, hl, hld⟩
+                rw [readable_eq_some, hs0man]; simp only [hn, ↓reduceIte]
+                exact readable_eq_some.mp hr'
+              simp [hrd] at this
+
+/-- **…and the clause is FALSE under `OLLAMA_NOPRUNE`** (genuine, small): kill the deletion of c between the
+unlink of its manifest and the unlink of its layer; nothing prunes; the repeated deletion answers "not
+found" and does nothing: blob d2 stays for ever, while the uninterrupted deletion removes it. -/
+theorem F28_noprune_killed_delete_leaks_blobs :
+    let envN : Env := { wEnvA with noPrune := true }
+    let p := ((Op.delete "c").exec envN wStore).effs.take 1
+    CrashPrefix ((Op.delete "c").exec envN wStore).effs p ∧
+    ((Op.delete "c").exec envN (restartWith envN (run p wStore))).ok = false ∧
+    ((Op.delete "c").exec envN (restartWith envN (run p wStore))).effs = [] ∧
+    get (restartWith envN (run p wStore)) (.blob "d2") = some (.raw [2]) ∧
+    get (run ((Op.delete "c").exec envN wStore).effs wStore) (.blob "d2") = none := by
+  refine ⟨⟨1, Or.inl rfl⟩, by decide, by decide, by decide, by decide⟩
+
+/-- non-vacuity: `wStore` (models a, c; blobs d1, d2) is all-referenced, and the deletion of c has a
+crash point between the two unlinks -/
+example : AllReferenced wStore ∧ allReadable wStore = true ∧
+    ((Op.delete "c").exec wEnvA wStore).effs = [.rm (.man "c"), .rm (.blob "d2")] := by
+  refine ⟨?_, by decide, by decide⟩
+  intro d hd
+  by_cases h1 : d = "d1"
+  · subst h1; decide
+  · by_cases h2 : d = "d2"
+    · subst h2; decide
+    · have : Path.blob "d1" ≠ Path.blob d := fun e => h1 (by injection e with e; exact e.symm)
+      have : Path.blob "d2" ≠ Path.blob d := fun e => h2 (by injection e with e; exact e.symm)
+      simp [wStore, StoreCrash.get, *] at hd
+
 end OllamaVerif.C12
